@@ -28,7 +28,7 @@ RULE = (
 
 KINDS = ["grad1", "nested", "fwd_rev", "rev_fwd", "hvp", "jacobian", "nested3", "nested_jvp", "nested_twice", "two_calls",
          "shared_tjp", "shared_hvp_twice", "shared_grad", "grad1_bwd", "nested_bwd", "shared_jvp", "shared_args", "shared_ckpt", "nested_worker",
-         "holomorphic", "complex_mid", "const_graph"]
+         "holomorphic", "complex_mid", "const_graph", "shared_pushforward", "shared_pullback"]
 
 # kinds whose result must equal that of another kind: the same arithmetic with the inner differentiation run in the calling thread
 TWIN = {"nested_worker": "nested"}
@@ -111,6 +111,21 @@ def shared_ops():
         cg(onp.ones(3), 1.0)  # the recording call happens here, once (no yields), before any thread replays the function
         _TLS.s = prev_s
         _SHARED.update(cg=cg, cg_ref=model)
+        # the FUNCTIONS returned by make_jvp / make_vjp at one fixed point (a linearisation computed once, applied by every thread to its
+        # own tangent / cotangent); fv yields while it is evaluated, and its backward pass yields through the yield-point primitive
+        yp_shared = ypass()
+
+        def fv(x, c=1.5):
+            s = getattr(_TLS, "s", None)
+            if s is not None:
+                s.enter(); s.yp()
+            y = yp_forward(anp.sin(x) * c) + yp_shared(x * x)
+            if s is not None:
+                s.yp(); s.leave()
+            return y
+
+        X0 = onp.array([0.2, -0.4, 0.6, 1.1])
+        _SHARED.update(pushfwd=autograd.make_jvp(fv)(X0), pullback=autograd.make_vjp(fv)(X0)[0])
         _SHARED.update(tjp=do.tensor_jacobian_product(f), hvp=autograd.hessian_vector_product(fs), grad=autograd.grad(fs),
                        vag=autograd.value_and_grad(fs), jac=autograd.jacobian(f), mjvp=autograd.make_jvp(fs),
                        gradk=autograd.grad(fk), egradk=autograd.elementwise_grad(fk), mjvpk=autograd.make_jvp(fk), ck=autograd.checkpoint(f))
@@ -329,6 +344,17 @@ def make_prog(kind, a):
             r = autograd.grad(f)(onp.array([0.3, -0.5, 0.8]) * (1.0 + a))
             s.yp()
             return conv(r)
+    elif kind in ("shared_pushforward", "shared_pullback"):
+        def prog(s):
+            ops = shared_ops()
+            _TLS.s = s
+            v = onp.array([1.0, 0.5, -1.0, 2.0]) * (0.5 + a)
+            fn = ops["pushfwd"] if kind == "shared_pushforward" else ops["pullback"]
+            r1 = fn(v)
+            s.yp()
+            r2 = fn(2.0 * v + a)
+            pick = (lambda r: r[1]) if kind == "shared_pushforward" else (lambda r: r)
+            return conv(onp.concatenate([pick(r1), pick(r2)]))
     elif kind == "const_graph":
         def prog(s):
             # one recorded-graph function (autograd.misc.const_graph), recorded beforehand, replayed by every thread on its own data
@@ -431,7 +457,7 @@ def run_case(kinds, params, schedule):
 
 
 # kinds in which the threads share an object built once per process (operator objects, a checkpointed function, a recorded graph)
-SHARED_KINDS = ["shared_tjp", "shared_hvp_twice", "shared_grad", "shared_jvp", "shared_args", "shared_ckpt", "const_graph"]
+SHARED_KINDS = ["shared_tjp", "shared_hvp_twice", "shared_grad", "shared_jvp", "shared_args", "shared_ckpt", "const_graph", "shared_pushforward", "shared_pullback"]
 
 
 def body(c, pool=None):
